@@ -147,7 +147,7 @@ def _explore_task(args):
     sys.setrecursionlimit(10000)
     from . import bind, core, uf
     mod, fam = _load_family(prop, fam_name)
-    known = set(_known_regions(prop).keys())
+    known = {rid: e.get("labels") for rid, e in _known_regions(prop).items()}
     t0 = time.time()
     bind.install(fam.shim_modules)
     ex = core.Explorer(timeout_ms=fam.timeout_ms, logic=fam.logic, round_identity=fam.round_identity)
@@ -523,8 +523,11 @@ def run_property(prop, tier, seed, jobs=None, only_family=None):
                 pass
         if reproduced:
             path, info = reproduced
-            hit_known = [r for r in info.get("regions", []) if r in known]
-            r = region if region in known else (hit_known[0] if hit_known else None)
+            def explains(rid):       # a recorded finding explains this failure only for the obligations it lists
+                labs = known[rid].get("labels") if rid in known else None
+                return rid in known and (labs is None or any(x in label for x in labs))
+            hit_known = [r for r in info.get("regions", []) if explains(r)]
+            r = region if (region is not None and explains(region)) else (hit_known[0] if hit_known else None)
             if r is not None:
                 if r not in findings_seen:
                     findings_seen[r] = path
